@@ -146,7 +146,9 @@ TickRules(k, t) ==
           <<k, "C17.ResetAborts", e.resetAt > 0 /\ ~e.ended, FALSE, "">>,
           <<k, "C08.SlotFreed", e.slotDue > 0, FALSE, "">>,
           <<k, "C08.EndsInTime", ~e.ended /\ e.released >= 0,
-                                 t <= Max(e.released, e.lastRxAt) + e.cfg.inactivity + 1000000 + Eps, "">>,
+                                 \* (bounded: the configured inactivity timeout, the final-chance delay after the FIN, and the
+                                 \*  task wrapper's 5 s tick, which is what notices a dropped reader)
+                                 t <= Max(e.released, e.lastRxAt) + e.cfg.inactivity + 1000000 + 5000000 + Eps, "">>,
           <<k, "C03.AbortSurfaces", e.ended /\ e.pend # {}, FALSE, "">>,
           <<k, "C19.WriteNotStuck", "write" \in e.pend /\ alive, R_C19_WriteNotStuck(e), "">>,
           <<k, "C02.NoStall", fair /\ undel, ~quiet, IF e.pwnd = 0 THEN "pwnd=0" ELSE "">>,
@@ -207,7 +209,9 @@ TxEndpoint(r, h, k) ==
             <<"C07.NoSpontaneousAck", h.type = ST_STATE /\ e.state = "established" /\ e.rxCount > 0 /\ ~abort,
                                       R_C07_NoSpontaneousAck(e, wnd)>>,
             <<"C17.SynAckForm", handshake, h.type \in {ST_STATE, ST_FIN}>>,
-            <<"C17.SynAckRepeats", handshake /\ h.type = ST_STATE, e.txCount + 1 <= e.cfg.max_retx>> }
+            \* (the SYN-ACK and its timer-driven repeats; an ACK provoked by the application, e.g. a window change,
+            \*  is not a repeat)
+            <<"C17.SynAckRepeats", handshake /\ h.type = ST_STATE /\ (e.txCount = 0 \/ ~e.stim), e.synAcks + 1 <= e.cfg.max_retx>> }
         data == IF ~isData THEN {} ELSE {
             <<"C01.NoGarbage", TRUE, R_NoGarbage(r.runs)>>,
             <<"C01.SegStable", Known(e, s), R_SegStable(e, s, r.runs, r.alts, r.amb, r.plen)>>,
@@ -228,6 +232,7 @@ TxEndpoint(r, h, k) ==
         pk == e.cfg.peer
         splitDel == isData /\ IsSplit(e, s, r.plen) /\ Live(pk) /\ D(s, eps[pk].rnxt) <= 0
         e2 == [Emitted(e1, h.ack, wnd, now) EXCEPT !.splitDelivered = @ \/ splitDel,
+                                                   !.synAcks = IF handshake /\ h.type = ST_STATE /\ (e.txCount = 0 \/ ~e.stim) THEN @ + 1 ELSE @,
                                                    !.idleWr = IF isData THEN 0 ELSE @,
                                                    !.drainDue = IF isData THEN 0 ELSE @]
     IN  /\ JudgeCtx(k, common \cup data \cup fin \cup post, IF e.splitDelivered THEN "split-of-delivered-probe" ELSE "")
@@ -519,28 +524,29 @@ Dying(r) ==
 
 EndOf(k, result) ==
     LET e == eps[k] IN
+    /\ pairs' = [pairs EXCEPT !.accepted = @ \ {k}]
     /\ Judge(k, {
           \* C17 "a RESET aborts the connection at once, with an error unless the close handshake was already answered"
           <<"C17.ResetAborts", e.resetAt > 0, result # "ok" \/ e.state = "last-ack">>,
           \* C06: the retransmission limit is a legitimate reason to fail only when it was reached
-          <<"C08.SlotFreed", TRUE, TRUE>>,
+          <<"C08.SlotFreed", result # "cancelled", TRUE>>,
           <<"C03.AbortSurfaces", e.pend # {} /\ result # "ok", TRUE>>,
           <<"C06.CapReason", result = "max number of retransmissions reached",
                              \E s \in DOMAIN e.segs : e.segs[s].cnt >= e.cfg.max_retx + 1>> })
     /\ eps' = [eps EXCEPT ![k] = [e EXCEPT !.ended = TRUE, !.endedAt = now, !.result = result,
-                                           !.slotDue = l, !.resetAt = 0,
+                                           !.slotDue = IF result = "cancelled" THEN 0 ELSE l, !.resetAt = 0,
                                            !.ackImm = 0, !.ackDue = -1, !.frDue = 0,
                                            !.idleWr = 0, !.idleFin = 0, !.finAnsDue = 0]]
 
 End(r) ==
     LET k == Key(r) IN
-    /\ UNCHANGED <<run, now, meta, sendIdx, app, infl, sk, pairs, last>>
-    /\ IF ~Live(k) THEN UNCHANGED eps /\ NoJudge ELSE EndOf(k, r.result)
+    /\ UNCHANGED <<run, now, meta, sendIdx, app, infl, sk, last>>
+    /\ IF ~Live(k) THEN UNCHANGED <<eps, pairs>> /\ NoJudge ELSE EndOf(k, r.result)
 
 VsockDrop(r) ==   \* the task object is gone; if it never completed it was cancelled
     LET k == Key(r) IN
-    /\ UNCHANGED <<run, now, meta, sendIdx, app, infl, sk, pairs, last>>
-    /\ IF ~Live(k) \/ eps[k].ended THEN UNCHANGED eps /\ NoJudge ELSE EndOf(k, "cancelled")
+    /\ UNCHANGED <<run, now, meta, sendIdx, app, infl, sk, last>>
+    /\ IF ~Live(k) \/ eps[k].ended THEN UNCHANGED <<eps, pairs>> /\ NoJudge ELSE EndOf(k, "cancelled")
 
 LiveOn(a) == { k \in DOMAIN eps : eps[k].cfg.local = a /\ ~eps[k].ended }
 
